@@ -297,7 +297,7 @@ void partitionCase(size_t idx) {
 }
 
 struct Plan { size_t randomSeg; size_t parts; int exhN; };
-Plan plan() { return g_cfg.tier ? Plan{24000, 8000, 6} : Plan{300, 120, 4}; }
+Plan plan() { return g_cfg.tier ? Plan{24000, 8000, 6} : Plan{1500, 600, 4}; }
 
 // exhaustive: n triangles, labels from {-1,0,1,2}
 size_t exhCases(int maxN) { size_t c = 0; for (int n = 0; n <= maxN; n++) c += 1; return c * 3; }
